@@ -700,39 +700,18 @@ func (p *parser) parseRelationalExpression() ast.Expression {
 	next := p.parseShiftExpression
 	left := next()
 
-	// the operands inherit the no-in restriction of a for initialiser (11.8: ...NoIn)
-	allowIn := p.scope.allowIn
-
-	switch p.token {
-	case token.LESS, token.LESS_OR_EQUAL, token.GREATER, token.GREATER_OR_EQUAL:
-		tkn := p.token
-		if p.mode&StoreComments != 0 {
-			p.comments.Unset()
-		}
-		p.next()
-
-		exp := &ast.BinaryExpression{
-			Operator:   tkn,
-			Left:       left,
-			Right:      p.parseRelationalExpression(),
-			Comparison: true,
-		}
-		return exp
-	case token.INSTANCEOF:
-		tkn := p.token
-		if p.mode&StoreComments != 0 {
-			p.comments.Unset()
-		}
-		p.next()
-
-		exp := &ast.BinaryExpression{
-			Operator: tkn,
-			Left:     left,
-			Right:    p.parseRelationalExpression(),
-		}
-		return exp
-	case token.IN:
-		if !allowIn {
+	// left-associative (11.8); the operands inherit the no-in restriction of a for initialiser
+	for {
+		comparison := false
+		switch p.token {
+		case token.LESS, token.LESS_OR_EQUAL, token.GREATER, token.GREATER_OR_EQUAL:
+			comparison = true
+		case token.INSTANCEOF:
+		case token.IN:
+			if !p.scope.allowIn {
+				return left
+			}
+		default:
 			return left
 		}
 		tkn := p.token
@@ -741,15 +720,13 @@ func (p *parser) parseRelationalExpression() ast.Expression {
 		}
 		p.next()
 
-		exp := &ast.BinaryExpression{
-			Operator: tkn,
-			Left:     left,
-			Right:    p.parseRelationalExpression(),
+		left = &ast.BinaryExpression{
+			Operator:   tkn,
+			Left:       left,
+			Right:      next(),
+			Comparison: comparison,
 		}
-		return exp
 	}
-
-	return left
 }
 
 func (p *parser) parseEqualityExpression() ast.Expression {
